@@ -3,6 +3,7 @@
 -/
 import PsProofs.CountSieve
 import PsProps.C04
+import PsModel.Generated.Locks
 
 namespace Ps.Props
 open Ps Ps.Spec
@@ -45,5 +46,15 @@ example : primeSievePrint (fun n => decide n.Prime) 0 20 64 = ["2", "3", "5", "7
   decide
 example : primeSievePrint (fun n => decide n.Prime) 0 20 128 = ["(3, 5)", "(5, 7)", "(11, 13)", "(17, 19)"] := by
   decide
+
+/-- **C15 (model sources)** regenerated on every run: digests of the (comment-, hook- and whitespace-normalised) bodies of the
+    functions that the hand-written model behind the theorems of this file mirrors.  An edit to one of
+    them — harmless or not — breaks this obligation; the check then searches for a failing input
+    with the correspondence streams (DESIGN.md section 2, step 5). -/
+theorem C15_model_sources :
+    Gen.modelSources.filter (fun e => e.1 ∈ ["CountPrintPrimes.printPrimes", "CountPrintPrimes.printkTuplets", "PrimeSieve.processSmallPrimes"]) =
+     [("CountPrintPrimes.printPrimes", "7e98b8d4e0d08af4a7ee"),
+      ("CountPrintPrimes.printkTuplets", "aa08210701ecd1a9c0e1"),
+      ("PrimeSieve.processSmallPrimes", "aea93bdf6096ecdf2777")] := by decide
 
 end Ps.Props
